@@ -371,6 +371,13 @@ func report(cfg *Config, ld *Loaded, db *SpecDB, results []*UnitResult, loadS, g
 				continue
 			}
 		}
+		if kf := known.matchOther(cfg.Prop, name); kf != nil && known.match(cfg.Prop, name) == nil {
+			// a finding recorded under another property, met because its unit is also tagged with this one: it is that
+			// property's finding, not a violation of this one (printed as a note, not counted)
+			fmt.Printf("NOTE: %s fails and is recorded as a known finding of property %s (not counted under %s)\n", name, kf.Property, cfg.Prop)
+			total--
+			continue
+		}
 		if kf := known.match(cfg.Prop, name); kf != nil {
 			knownHits = append(knownHits, fmt.Sprintf("KNOWN-FINDING: property=%s %s — %s", cfg.Prop, name, kf.What))
 			kf.hit = true
@@ -465,6 +472,15 @@ func (db *knownDB) match(prop, obl string) *knownFinding {
 			continue
 		}
 		if k.Property == prop && k.Obligation == obl {
+			return k
+		}
+	}
+	return nil
+}
+
+func (db *knownDB) matchOther(prop, obl string) *knownFinding {
+	for _, k := range db.entries {
+		if k.Status != "fixed" && k.Property != prop && k.Obligation == obl {
 			return k
 		}
 	}
